@@ -14,7 +14,7 @@ H(to, pf, da, sa, d) == [to |-> to, id |-> MkId(7, 0, 0, pf, da, sa), data |-> d
 P == 53248
 MC_Adv == {
    H("A", PF_TPCM, 16, 32, CmCts(1, 1, P)),  H("A", PF_TPCM, 16, 32, CmCts(2, 2, P)),  H("A", PF_TPCM, 16, 32, CmCts(0, 1, P)),
-   H("A", PF_TPCM, 16, 32, CmCts(1, 5, P)),  H("A", PF_TPCM, 16, 32, CmCts(255, 0, P)),
+   H("A", PF_TPCM, 16, 32, CmCts(1, 5, P)),  H("A", PF_TPCM, 16, 32, CmCts(1, 4, P)),  H("A", PF_TPCM, 16, 32, CmCts(1, 3, P)),  H("A", PF_TPCM, 16, 32, CmCts(255, 0, P)),
    H("A", PF_TPCM, 16, 32, CmEoma(15, 3, P)), H("A", PF_TPCM, 16, 32, CmAbort(1, P)),
    H("A", PF_TPCM, 16, 32, CmRts(15, 3, 1, P)), H("A", PF_TPCM, 16, 32, CmRts(0, 0, 0, P)), H("A", PF_TPCM, 255, 32, CmRts(9, 2, 2, P)),
    H("A", PF_TPCM, 16, 32, CmBam(9, 2, P)),   H("A", PF_TPCM, 255, 32, CmBam(9, 2, P)),
